@@ -62,10 +62,15 @@ func (p *printer) stmt(stmt ast.Stmt, nextIsRBrace bool) {
 
 		case *ast.GenDecl:
 			p.setComment(d.Doc)
-			assert(len(d.Specs) == 1)
-			if s, ok := d.Specs[0].(*ast.ValueSpec); ok {
-				assert(d.Tok == token.VAR)
-				p.print(d.Pos(), token.Zh_设定, token.K_点)
+			// 设定 / 常量, single or grouped (`设定:` … 完毕)
+			tok := token.Zh_设定
+			if d.Tok == token.CONST || d.Tok == token.Zh_常量 {
+				tok = token.Zh_常量
+			}
+			if len(d.Specs) != 1 || d.Lparen.IsValid() {
+				p.valueSpecGroup(d, tok)
+			} else if s, ok := d.Specs[0].(*ast.ValueSpec); ok {
+				p.print(d.Pos(), tok, token.K_点)
 				p.spec_ValueSpec(s, 1, true)
 			} else {
 				panic("unreachable")
